@@ -328,3 +328,33 @@ def c04(tier, seed):
         "to the compression function and the truncated big-endian output equal the specified padding (0x80, marker bit, "
         "64/128-bit length, one vs. two blocks, zero counter for padding-only blocks).",
         trusted_base=["spec/blake.py", "engine/models.py", "engine/bv.py"], coverage_extra={"exhaustive": True})
+
+
+from . import check_skein
+
+
+@check("C05")
+def c05(tier, seed):
+    r = Report("C05", tier, TV, seed)
+    f = facts.load("K1")
+    jobs = [(check_skein.c05_process_block, ("K1",)), (check_skein.c05_default, ("K1",)), (check_skein.c05_update, ("K1",))]
+    hs = check_skein.hasher_types(f)
+    for t, name, nb, n in hs:
+        for lo in range(0, nb + 1, 16):
+            jobs.append((check_skein.c05_finalize, ("K1", (name, n), _range_fn(lo, lo + 16))))
+    rets = par.run(r, jobs)
+    nf = sum(x for (fn, _), x in zip(jobs, rets) if fn is check_skein.c05_finalize and x)
+    r.floor("hasher instantiations (state size x output size)", len(hs), 7)
+    r.floor("finalisation specialisations", nf, 487)
+    r.assumptions = ["Threefish is an uninterpreted function on both sides here; C09 decides that the repository's Threefish equals Skein 1.3's",
+                     "spec/skein.py validated against the Skein 1.3 golden KATs with the real Threefish reference",
+                     "output sizes are type-level: the instantiations named by the roots fixture (N = 1, 7, 32, 64, 128, 200 over the three state sizes) are covered; the code depends on N only through the config word 8N and the chunking of the output",
+                     "block-buffer / block-padding are interpreted from their real MIR"]
+    return r.finish(
+        "R5.1 process_block on a symbolic state = (t0 += n; x = TF(x, t, block) ^ block; t1 &= !FIRST). R5.2 Default = UBI of "
+        "the config block {SHA3, v1, 8N bits} with tweak (32, FIRST|FINAL|CFG), then message tweak (0, FIRST|MSG). R5.3 "
+        "update on symbolic data for boundary (buffer position, length) pairs processes every block except the last "
+        "non-empty one with the block size as byte count. R5.4 finalize_into_dirty for EVERY buffer position 0..=block "
+        "size of every instantiation: FINAL flag, zero padding, byte count = position, then output block i = "
+        "UBI(G, LE64(i), (8, FIRST|FINAL|OUT)) truncated to N bytes (multi-block and odd N included).",
+        trusted_base=["spec/skein.py", "engine/models.py", "engine/bv.py"], coverage_extra={"exhaustive": True})
